@@ -310,9 +310,9 @@ func cdOffsetOf(z []byte) int {
 }
 
 func mkApk(s ApkSpec, class string, strict bool) shape.Shape {
-	if !s.Manifest && class != "no-jar-manifest" {
+	if !s.Manifest {
 		// the feature that matters most to signers: nothing for a v1 (JAR) signature to hold on to
-		class = "no-jar-manifest+" + class
+		class = "no-jar-manifest"
 	}
 	return shape.Shape{Name: s.Name(), Class: class, File: "a.apk", Strict: strict, Source: "generated",
 		Build: func() ([]byte, error) { return BuildApk(s), nil }, Check: checkZipHas("AndroidManifest.xml")}
